@@ -26,15 +26,15 @@ func runC03(c *Ctx) {
 	c.Rule("R03.1", "MustPass")
 	if fn := c.Need("isaac.IsValidVoteproofWithSuffrage"); fn != nil {
 		succ := c.SuccessReturns(fn)
-		noExpels := GCmp("len(*vp.Expels()*)", "<=", "0")
+		noExpels := GCmp("len(φ(nil|vp.Expels()))", "<=", "0")
 		c.MP(fn, "success: base.IsValidVoteproofWithSuffrage succeeded", succ, 1, GOkTo("base.IsValidVoteproofWithSuffrage"))
 		c.MP(fn, "success: voteproof not nil", succ, 1, GNonNil("vp"))
 		c.MP(fn, "success: with expels, NewSuffrageWithExpels succeeded", succ, 1, noExpels, GOkTo("isaac.NewSuffrageWithExpels"))
-		c.MP(fn, "success: with expels, the expel loop ran to completion", succ, 1, noExpels, GLoopDone("(ι < len(*vp.Expels()*))"))
+		c.MP(fn, "success: with expels, the expel loop ran to completion", succ, 1, noExpels, GLoopDone("(ι < len(φ(nil|vp.Expels())))"))
 		c.MP(fn, "success: stuck voteproof covers the whole suffrage", succ, 1, GFalse("vp.(base.StuckVoteproof)#1"),
-			GCmp("suf.Len()", "==", "(len(vp.SignFacts()) + len(*vp.Expels()*))"))
-		c.ForEach(fn, "each expel: IsValidExpelWithSuffrage succeeded", "(ι < len(*vp.Expels()*))", 1,
-			GOk("isaac.IsValidExpelWithSuffrage(vp.Point().Height(), *vp.Expels()*[ι], suf)"))
+			GCmp("suf.Len()", "==", "(len(vp.SignFacts()) + len(φ(nil|vp.Expels())))"))
+		c.ForEach(fn, "each expel: IsValidExpelWithSuffrage succeeded", "(ι < len(φ(nil|vp.Expels())))", 1,
+			GOk("isaac.IsValidExpelWithSuffrage(vp.Point().Height(), φ(nil|vp.Expels())[ι], suf)"))
 		ns := c.CallsTo(fn, "isaac.NewSuffrageWithExpels")
 		c.ArgIs(fn, "NewSuffrageWithExpels: the given suffrage", ns, 1, 0, "suf")
 		c.ArgIs(fn, "NewSuffrageWithExpels: the voteproof's threshold", ns, 1, 1, "vp.Threshold()")
